@@ -23,7 +23,9 @@ class SchemeRef:
         m = Chem.MolFromSmiles(smiles)
         # Kekule form with the aromatic flags cleared (what sanitising-without-aromatisation leaves); only the Benson
         # perception below makes anything aromatic again
-        m = Chem.AddHs(m); Chem.Kekulize(m, clearAromaticFlags=True)
+        # Kekulise the hydrogen-free molecule first, as the code's sanitisation does: for rings fused to an aromatic ring the
+        # Kekule form RDKit picks depends on that order, and the form decides which shared bond is double
+        Chem.Kekulize(m, clearAromaticFlags=True); m = Chem.AddHs(m)
         for b in m.GetBonds():
             if b.GetBondType().name == 'UNSPECIFIED': b.SetBondType(Chem.BondType.ZERO)
         # Benson perception on the unmodified Kekule form
